@@ -1,6 +1,7 @@
 package main
 
 import (
+	"bytes"
 	"encoding/json"
 	"fmt"
 	"os"
@@ -303,6 +304,18 @@ func runSeq(p *DPlan, system string, keepLog bool, prefix string) seqResult {
 				disk.Init(d)
 			}
 			shared := make([]byte, model.BlockSize)
+			// a slice returned by Read belongs to the caller: it must not change
+			// when the disk is used again (held across later operations)
+			var held []byte
+			var heldCopy []byte
+			heldAt := -1
+			checkHeld := func(oi int) bool {
+				if held != nil && !bytes.Equal(held, heldCopy) {
+					fail(prefix+".alias-read-buf", "", fmt.Sprintf("the slice returned by Read in op %d changed while the caller held it (by op %d): the disk exposes or reuses memory it handed out", heldAt, oi))
+					return false
+				}
+				return true
+			}
 			if sz := api.Size(); sz != rd.N {
 				fail(prefix+".size", "", fmt.Sprintf("round %d: Size() = %d after opening with %d blocks", ri, sz, rd.N))
 				return
@@ -501,7 +514,13 @@ func runSeq(p *DPlan, system string, keepLog bool, prefix string) seqResult {
 							b[i] ^= 0x3C
 						}
 						res.probes = addProbe(res.probes, "scribble_after_read")
+					} else if op.Kind == "read" && p.Batch == "seq" {
+						held, heldCopy, heldAt = b, append([]byte(nil), b...), oi
+						res.probes = addProbe(res.probes, "held_read_result")
 					}
+				}
+				if p.Batch == "seq" && !checkHeld(oi) {
+					return
 				}
 				// cross-invariant: no other address changed (full scan on
 				// small disks, neighbours otherwise) — fault-free runs only
@@ -590,6 +609,8 @@ func runSeq(p *DPlan, system string, keepLog bool, prefix string) seqResult {
 			if lastBarrier != nil {
 				res.probes = addProbe(res.probes, "crash_after_barrier")
 			}
+		} else if r.Outcome == simrt.Deadlock {
+			fail(prefix+".deadlock", "", fmt.Sprintf("round %d: an API call never returns (after %d operations): %s", ri, res.ops, r.Detail))
 		} else if r.Outcome != simrt.Completed {
 			res.log = append(res.log, "outcome "+r.Outcome.String()+" "+r.Detail)
 		}
